@@ -29,8 +29,10 @@ PROPS = {
                  rule="implementation-driven random gate-level histories of one promise.Once (Resolve calls incl. pre-cancelled contexts, "
                       "critical sections of callers and of the callback goroutine one at a time, context cancellations of waiters and of "
                       "the spawner incl. the starter of a running callback while others wait, callback outcomes value / error / Canceled / "
-                      "non-zero value together with an error) + corpus; distinct = distinct event sequence; non-trivial = "
-                      ">= 8 events, a caller observed blocked and a callback entered"),
+                      "non-zero value together with an error; the k-th Resolve of a history brings a context of flavour k mod 4: 0, 2 plain WithCancel, "
+                      "1 ending like a deadline (Err() = DeadlineExceeded), 3 cancelled with a cause (Cause = a harness error); return codes tell "
+                      "context.Canceled / DeadlineExceeded / the cause / a callback's error / any other error apart) + corpus; "
+                      "distinct = distinct event sequence; non-trivial = >= 8 events, a caller observed blocked and a callback entered"),
             dict(name="memo", pkg="./oncex", test="TestMemo", coq_mod="Once.Spec", run_check="run_check_memo",
                  corpus="memo", quick_n=1500, thorough_n=100000, nontrivial=nt_memo,
                  rule="random histories of one memo.MemoizeFunc (calls before, while and after the harness-owned function runs, "
@@ -48,6 +50,11 @@ PROPS = {
             "(monitor clause 9): a caller whose own context is live is never handed the error of an invocation whose starter's context was already "
             "cancelled when that invocation's callback returned (observable because the harness cancels at gates); a cancellation that arrives after "
             "the callback has returned is not covered by the clause (the code retries there too, up to its ctx.Err() test)",
+            "reading of 'a caller whose own context is cancelled gets context.Canceled' as to the error's identity (monitor clause 10): no Resolve call "
+            "returns context.DeadlineExceeded or the cancellation cause of a context; the harness-owned callback never returns these two errors, so in "
+            "the observed traces they can only stem from a context (the caller's own, or the starter's through the promise); the context flavour is "
+            "derived from the number of earlier Resolve events (replayable) and is not an argument of the model, because Once returns the literal "
+            "context.Canceled for every flavour",
             "a (value, error) result is observed as one integer value<<20 + error id; Once hands (zero value, error) to its callers whatever value "
             "the callback returned with the error (compared through the correspondence), MemoizeFunc hands the pair on unchanged (clause 7)",
             "liveness stated as quiescence safety: in no state without enabled internal steps is a caller blocked on a resolved or orphaned promise, or blocked with a cancelled context",
@@ -61,7 +68,8 @@ PROPS = {
                  "callback outcomes) and of an operation-level model of memo.MemoizeFunc (swap, function, result write, close, read as separate steps): "
                  "at most one callback invocation in user code; a successful promise is never cleared, no callback starts afterwards and late callers "
                  "return that value; a failed attempt is detached before it is delivered, so later Resolves obtain their result from a later invocation; "
-                 "Canceled only for callers whose own context is cancelled; a live caller never receives the error of an invocation whose starter was already "
+                 "Canceled only for callers whose own context is cancelled (and, on the observed traces, the identical context.Canceled whatever the context's "
+                 "own Err() or cause: clause 10, never produced by the model); a live caller never receives the error of an invocation whose starter was already "
                  "cancelled when the callback returned; quiescence: no caller blocked on a resolved/orphaned promise; memo: exactly one "
                  "function call, result published before done is closed and never rewritten, every return is that call's full (value, error) result. Models tied to the code "
                  "by scheduled differential correspondence (synctest, promise.VerifHook sites 1-3, harness-owned callback) and monitors on the observed traces; "
